@@ -376,6 +376,181 @@ def conn3_of_table(t):
     return tuple(s[9 * (1 + a) + 3 * (1 + b) + (1 + c)] == "1" for a in (0, 1) for b in (0, 1) for c in (0, 1))
 
 
+# ----------------------------------------------------------------------------- large operands (truth tables as byte strings / big integers)
+def big_bdd_from_tt(nv, ttbytes):
+    """Canonical array (library layout: DFS post-order, high child first, root last) of the function of
+    nv >= 3 variables whose truth table is `ttbytes` (2^nv bits, variable 0 most significant in the index,
+    index j stored at bit 7-(j&7) of byte j>>3).  Iterative: level-by-level unique table bottom-up (the
+    three lowest levels through a per-byte cache), then an explicit-stack DFS for the layout."""
+    assert nv >= 3 and len(ttbytes) == (1 << nv) // 8
+    uniq = {}
+    absn = [None, None]   # abstract id -> (var, lo id, hi id); ids 0/1 are the terminals
+
+    def mk(k, lo, hi):
+        if lo == hi:
+            return lo
+        key = (k, lo, hi)
+        a = uniq.get(key)
+        if a is None:
+            a = len(absn)
+            absn.append(key)
+            uniq[key] = a
+        return a
+
+    bytecache = {}
+
+    def of_byte(bv):
+        r = bytecache.get(bv)
+        if r is None:
+            bits = [(bv >> (7 - j)) & 1 for j in range(8)]
+            l1 = [mk(nv - 1, bits[2 * q], bits[2 * q + 1]) for q in range(4)]
+            l2 = [mk(nv - 2, l1[2 * q], l1[2 * q + 1]) for q in range(2)]
+            r = mk(nv - 3, l2[0], l2[1])
+            bytecache[bv] = r
+        return r
+
+    ids = [of_byte(bv) for bv in ttbytes]
+    for k in range(nv - 4, -1, -1):
+        ids = [mk(k, ids[2 * i], ids[2 * i + 1]) for i in range(1 << k)]
+    root = ids[0]
+    if root == 0:
+        return [(nv, 0, 0)]
+    out = [(nv, 0, 0), (nv, 1, 1)]
+    if root == 1:
+        return out
+    index = {0: 0, 1: 1}
+    stack = [(root, False)]
+    while stack:
+        a, children_done = stack.pop()
+        if a in index:
+            continue
+        k, lo, hi = absn[a]
+        if children_done:
+            index[a] = len(out)
+            out.append((k, index[lo], index[hi]))
+        else:
+            stack.append((a, True))
+            stack.append((lo, False))
+            stack.append((hi, False))   # popped first: high subtree is laid out first
+    return out
+
+
+def big_random_bdd(rng, nv):
+    return big_bdd_from_tt(nv, rng.getrandbits(1 << nv).to_bytes((1 << nv) // 8, "big"))
+
+
+
+# Truth tables of nv >= 3 variables as Python integers of 2^nv bits: the value at index j (variable 0 most significant
+# in j) is bit (2^nv - 1 - j) of the integer, i.e. int.from_bytes(ttbytes, "big") for the byte layout of
+# big_bdd_from_tt.  Pointwise connectives are the integer bit operations; used by the generators to know the exact
+# size of a large result in advance and by the oracles as an exact, independent description of the expected function.
+def tt_mask(nv):
+    return (1 << (1 << nv)) - 1
+
+
+def tt_var(nv, k):
+    """truth table of the projection x_k"""
+    m = 1 << (nv - 1 - k)          # run length: m indices with x_k = 0, then m with x_k = 1
+    if m >= 8:
+        unit = b"\x00" * (m // 8) + b"\xff" * (m // 8)
+    else:
+        unit = bytes([{4: 0x0F, 2: 0x33, 1: 0x55}[m]])
+    return int.from_bytes(unit * ((1 << nv) // 8 // len(unit)), "big")
+
+
+def tt_flip(nv, t, k):
+    """truth table of v -> t(v with x_k inverted); k None = identity"""
+    if k is None:
+        return t
+    m = 1 << (nv - 1 - k)
+    vk = tt_var(nv, k)
+    return ((t & vk) << m) | ((t & ~vk & tt_mask(nv)) >> m)
+
+
+def tt_quant(nv, t, k, universal=False):
+    """truth table of exists x_k . t (or forall)"""
+    m = 1 << (nv - 1 - k)
+    vk = tt_var(nv, k)
+    f1 = t & vk
+    f0 = t & ~vk & tt_mask(nv)
+    c1 = f1 | (f1 << m)            # cofactor x_k = 1 spread over both halves
+    c0 = f0 | (f0 >> m)
+    return (c0 & c1) if universal else (c0 | c1)
+
+
+def tt_of_small(nv, variables, bits):
+    """truth table of the function over the sorted `variables` whose table is `bits` (first variable most significant)"""
+    variables = sorted(variables)
+    mask = tt_mask(nv)
+    vs = [tt_var(nv, x) for x in variables]
+    out = 0
+    for i, b in enumerate(bits):
+        if b:
+            term = mask
+            for j, x in enumerate(variables):
+                bit = (i >> (len(variables) - 1 - j)) & 1
+                term &= vs[j] if bit else (~vs[j] & mask)
+            out |= term
+    return out
+
+
+def tt_to_bytes(nv, t):
+    return t.to_bytes((1 << nv) // 8, "big")
+
+
+def tt_conn2(nv, conn, ta, tb):
+    """pointwise binary connective (4 bools indexed 2*l+r)"""
+    mask = tt_mask(nv)
+    out = 0
+    for l in (0, 1):
+        for r in (0, 1):
+            if conn[2 * l + r]:
+                out |= (ta if l else ~ta & mask) & (tb if r else ~tb & mask)
+    return out
+
+
+def tt_conn3(nv, conn, ta, tb, tc):
+    mask = tt_mask(nv)
+    out = 0
+    for a in (0, 1):
+        for b in (0, 1):
+            for c in (0, 1):
+                if conn[4 * a + 2 * b + c]:
+                    out |= (ta if a else ~ta & mask) & (tb if b else ~tb & mask) & (tc if c else ~tc & mask)
+    return out
+
+
+def big_random_tt(rng, nv):
+    return rng.getrandbits(1 << nv)
+
+
+def small_fn_tt(rng, nv, kmin=2, kmax=3, min_nodes=4):
+    """(canonical array, truth table) of a small non-constant function over kmin..kmax of the nv variables"""
+    while True:
+        k = rng.randint(kmin, kmax)
+        variables = sorted(rng.sample(range(nv), k))
+        bits = [rng.random() < 0.5 for _ in range(1 << k)]
+        a = bdd_from_tt(nv, variables, bits)
+        if len(a) >= min_nodes:
+            return a, tt_of_small(nv, variables, bits)
+
+
+def sampled_disagreement(nv, result_nodes, expected_fn, seed, samples=3000):
+    """independent oracle for large operands: raw evaluation of the result array against `expected_fn` (itself built on
+    raw_eval of the operand arrays) on `samples` random valuations; returns (confirmed, description)"""
+    rr = random.Random(seed)
+    for i in range(samples):
+        val = [rr.random() < 0.5 for _ in range(nv)]
+        try:
+            got = raw_eval(result_nodes, val)
+        except (EvalDiverges, IndexError) as e:
+            return True, "result array cannot be evaluated: %s" % e
+        exp = expected_fn(val)
+        if got != exp:
+            return True, {"valuation": vbits(val), "expected": exp, "observed": got, "valuations_tried": i + 1}
+    return False, "no failing valuation among %d random valuations" % samples
+
+
 # ----------------------------------------------------------------------------- running things
 def run_cmd(cmd, cwd=None, timeout=1800, env=None, stdin_data=None):
     e = dict(os.environ)
